@@ -51,6 +51,9 @@ func (n *VerifNode) Gc() { n.state.GcOldContexts() }
 // MainMessage mirrors the messagesChannel branch of MainLoop.run (parse + log; forwarding is up to the caller).
 func (n *VerifNode) MainMessage(message *interfaces.ConsensusRawMessage) {
 	parsedMessage := interfaces.ToConsensusMessage(message)
+	if parsedMessage == nil {
+		return
+	}
 	n.logger.Debug("LHFLOW LHMSG MAINLOOP RECEIVED %v from %v for H=%d V=%d", parsedMessage.MessageType(), parsedMessage.SenderMemberId(), parsedMessage.BlockHeight(), parsedMessage.View())
 }
 
@@ -58,6 +61,9 @@ func (n *VerifNode) MainMessage(message *interfaces.ConsensusRawMessage) {
 func (n *VerifNode) WorkerMessage(msg *interfaces.ConsensusRawMessage) {
 	lh := n.worker
 	parsedMessage := interfaces.ToConsensusMessage(msg)
+	if parsedMessage == nil {
+		return
+	}
 	lh.logger.Debug("LHFLOW LHMSG WORKERLOOP RECEIVED %v from %v for H=%d V=%d", parsedMessage.MessageType(), parsedMessage.SenderMemberId(), parsedMessage.BlockHeight(), parsedMessage.View())
 	lh.filter.HandleConsensusRawMessage(msg)
 }
